@@ -24,19 +24,24 @@ class C11(C10):
             "another attribute are not included. non-trivial = the loaded instance has >= 1 inverse attribute and the file >= 1 real referrer; "
             "distinct = hash(schema, inverse attribute kinds, referrer layout, load order pattern)")
     components_real = ["lazyRefs (inverse resolver)", "lazyInstMgr", "SDAI_Application_instance inverse attribute map", "EntityDescriptor::InitIAttrs / superInvAttrIter", "generated schema library"]
-    assumptions = ["loads of complex (externally mapped) instances are executed but their inverse attributes are not judged",
+    assumptions = ["an externally mapped instance keeps a copy of an inherited inverse attribute in several parts; the check judges one view per attribute (the first non-empty copy), not every copy",
                    "schemas of this batch always contain INVERSE attributes; C10 covers the loader without them"]
 
     def n_plans(self, tier):
         return 16000 if tier == "quick" else 200000
 
     def expected_inverse(self, plan, x):
-        """{(owner entity lower, inverse name lower): sorted ids} for simple instance x"""
+        """{(owner entity lower, inverse name lower): sorted ids} for instance x (simple, or complex: every entity a part stands for)"""
         sch = self.schema_of(plan)
         insts = plan["model"]["insts"]
-        ent = [e for e in sch.order if e.upper() == x["parts"][0]["ent"]][0]
+        covered = []
+        for part in x["parts"]:
+            pe = [e for e in sch.order if e.upper() == part["ent"]]
+            for anc in (sch.closure(pe[0]) if pe else []):
+                if anc not in covered:
+                    covered.append(anc)
         out = {}
-        for anc in sch.closure(ent):
+        for anc in covered:
             for iv in sch.ents[anc].get("inverse", []):
                 holders = []
                 # the inverted attribute is visible in E: declared by E itself or by one of its supertypes
@@ -89,8 +94,6 @@ class C11(C10):
             if h["op"] != "load":
                 continue
             x = byid[h["id"]]
-            if len(x["parts"]) != 1:
-                continue
             if o.get("text") is None:
                 add("C11/load-null", "loadInstance(#%d) returned nothing" % x["id"])
                 continue
@@ -125,7 +128,7 @@ class C11(C10):
         n_inv = 0
         n_ref = 0
         for h in plan["history"]:
-            if h["op"] == "load" and len(byid[h["id"]]["parts"]) == 1:
+            if h["op"] == "load":
                 e = self.expected_inverse(plan, byid[h["id"]])
                 n_inv += len(e)
                 n_ref += sum(len(v) for v in e.values())
